@@ -1034,6 +1034,22 @@ func execOp(ms []*inst, o op) string {
 }
 
 func runImpl(t *tdesc, cs []ctor, ops []op, dumpEvery int, skip map[string]bool) *histRes {
+	// A hang is one operation (with its dump) that makes no progress for `stall`.  The verdict must not depend on the
+	// machine's load: a history that stalls for 8 s is run once more with a 60 s limit — a real deadlock stalls again
+	// (and is reported), a starved goroutine does not.
+	h := runImplStall(t, cs, ops, dumpEvery, skip, 8*time.Second)
+	if _, known := confirmedHang.Load(t.name); h.abort == "timeout" && !known {
+		h = runImplStall(t, cs, ops, dumpEvery, skip, 60*time.Second)
+		if h.abort == "timeout" {
+			confirmedHang.Store(t.name, true) // this type really hangs: further stalls of it need no second look
+		}
+	}
+	return h
+}
+
+var confirmedHang sync.Map
+
+func runImplStall(t *tdesc, cs []ctor, ops []op, dumpEvery int, skip map[string]bool, stall time.Duration) *histRes {
 	h := &histRes{t: t, c: cs[0], cs: cs, ops: ops, skip: skip}
 	var cur int64 = -1
 	var mu sync.Mutex
@@ -1083,7 +1099,6 @@ func runImpl(t *tdesc, cs []ctor, ops []op, dumpEvery int, skip map[string]bool)
 	}()
 	// watchdog on progress: a hang is one operation (with its dump) that does not finish within
 	// `stall`; a long history on a loaded machine is not a hang
-	const stall = 8 * time.Second
 	last, lastAt := int64(-2), time.Now()
 	tick := time.NewTicker(200 * time.Millisecond)
 	defer tick.Stop()
@@ -1887,7 +1902,7 @@ func probe(t *tdesc, rep *vh.Report) probeOut {
 				skip[v] = true
 			}
 		}
-		out := vh.GuardTimeout(2*time.Second, func() {
+		out := guardProbe(func() {
 			m := t.mk(c)
 			for _, s := range setup {
 				m.exec(s)
@@ -1903,7 +1918,7 @@ func probe(t *tdesc, rep *vh.Report) probeOut {
 	}
 	for _, code := range t.ops {
 		o := op{code: code, k: k(1), v: 10, n: 2, asc: true, pairs: []pairKV{{k(7), 70}}}
-		out := vh.GuardTimeout(2*time.Second, func() {
+		out := guardProbe(func() {
 			m := t.mk(c)
 			for _, s := range setup {
 				m.exec(s)
@@ -1921,7 +1936,7 @@ func probe(t *tdesc, rep *vh.Report) probeOut {
 	if t.hasCtor {
 		for _, cp := range []int{0, 1, 2, 3, 101} {
 			cc := ctor{cap: cp, lf: 0.75}
-			out := vh.GuardTimeout(2*time.Second, func() {
+			out := guardProbe(func() {
 				m := t.mk(cc)
 				for _, s := range setup {
 					m.exec(s)
@@ -2241,7 +2256,7 @@ type pendingFail struct {
 }
 
 func failsWith(env *vh.Env, t *tdesc, c []ctor, ops []op, key string, skip map[string]bool) (*histRes, *verdict) {
-	h := runImpl(t, c, ops, 1, skip)
+	h := runImplStall(t, c, ops, 1, skip, 8*time.Second)
 	if h.abort != "" {
 		return nil, nil
 	}
@@ -2475,4 +2490,14 @@ func replayFile(env *vh.Env, rep *vh.Report) {
 			rep.Fail("property", v.key, v.summary, v.rc)
 		}
 	}
+}
+
+// guardProbe runs a probe (a handful of operations on a 3-element container) under a watchdog that only bounds hangs:
+// 2 s, and if that expires once more with 30 s — a real deadlock expires twice, a starved goroutine on a busy machine does not.
+func guardProbe(f func()) vh.Outcome {
+	o := vh.GuardTimeout(2*time.Second, f)
+	if o.Timeout {
+		o = vh.GuardTimeout(30*time.Second, f)
+	}
+	return o
 }
